@@ -1082,6 +1082,15 @@ func (r *RockDB) restoreFromPath(backupDir string, term uint64, index uint64) er
 		os.RemoveAll(fn)
 	}
 	verifhook.Point("rockredis.restore.afterDelete")
+	// the CURRENT file (which points to the manifest) must be copied at last, otherwise
+	// the engine can not be opened anymore if crashed while the other files are not copied yet.
+	// Without the CURRENT file the engine is opened as new and the restore will be done again at start.
+	for i, fn := range ckNameList {
+		if path.Base(fn) == "CURRENT" && i != len(ckNameList)-1 {
+			ckNameList = append(append(ckNameList[:i:i], ckNameList[i+1:]...), fn)
+			break
+		}
+	}
 	for _, fn := range ckNameList {
 		if strings.HasPrefix(path.Base(fn), "LOG") {
 			dbLog.Infof("ignore copy LOG file: %v", fn)
